@@ -284,6 +284,9 @@ def gen_cases(run, scale):
     def add(k, p, c, inp, **kw):
         d = {"k": k, "p": p, "c": c, "in": inp}
         d.update(kw)
+        if k in ("parse", "prop") and rng.random() < 0.25:
+            # the same arguments in another public form: enum members, upper-case names, keyword / positional
+            d["af"] = rng.choice(["enum", "upper", "keyword"] if k == "parse" else ["enum", "upper", "positional"])
         cases.append(d)
 
     def dt_input(cls=None, subsecond=False):
@@ -663,53 +666,57 @@ def oracle(cases, results, stats=None):
     out = []
     groups = {}
     for case, res in zip(cases, results):
-        o, again = split_result(res)
-        text = written_text(case, o)
-        if text is None:
-            continue
-        p, c = case["p"], case["c"]
-        t_in = input_instant(case["in"])
-        strict, t_out, frac = read_written(text)
-        off = case["in"].get("off") or 0
-        subsec = off % 1000000 != 0
-        year_class = (not strict and t_out is not None and re.match(r"^\d{1,3}-", text) is not None)
+      try:
+          o, again = split_result(res)
+          text = written_text(case, o)
+          if text is None:
+              continue
+          p, c = case["p"], case["c"]
+          t_in = input_instant(case["in"])
+          strict, t_out, frac = read_written(text)
+          off = case["in"].get("off") or 0
+          subsec = off % 1000000 != 0
+          year_class = (not strict and t_out is not None and re.match(r"^\d{1,3}-", text) is not None)
 
-        inp = case["in"]
-        # narrow classes of the two defects of STIXdatetime: a repeated wall time (fold=1) whose offset differs from the
-        # fold=0 one, on a route that rebuilds the value from a datetime; a value copied / pickled before it is written
-        fold_class = inp.get("tz") == "zone" and inp.get("fold") == 1 and inp.get("off") != inp.get("off0") and \
-            (case["k"] in ("parse", "prop", "obj") or "src" in inp or case.get("via") == "deepcopy")
-        copy_class = case.get("via") in ("copy", "pickle")
+          inp = case["in"]
+          # narrow classes of the two defects of STIXdatetime: a repeated wall time (fold=1) whose offset differs from the
+          # fold=0 one, on a route that rebuilds the value from a datetime; a value copied / pickled before it is written
+          fold_class = inp.get("tz") == "zone" and inp.get("fold") == 1 and inp.get("off") != inp.get("off0") and \
+              (case["k"] in ("parse", "prop", "obj") or "src" in inp or case.get("via") == "deepcopy")
+          copy_class = case.get("via") in ("copy", "pickle")
 
-        def viol(what, finding=None):
-            out.append(Violation("%s: %s" % (what, describe(case, text)), {"cases": [case], "check": what}, finding))
+          def viol(what, finding=None):
+              out.append(Violation("%s: %s" % (what, describe(case, text)), {"cases": [case], "check": what}, finding))
 
-        if not strict:
-            viol("not of the form YYYY-MM-DDTHH:MM:SS[.fraction]Z with a four-digit year", FINDING_YEAR if year_class else None)
-        if t_out is None:
-            continue
-        if t_in is not None:
-            unit = UNIT.get((p, c), 1)
-            want = (t_in // unit) * unit
-            if subsec:
-                # out of the property's realistic domain (see MANIFEST note): only counted
-                stats["subsecond_offset_cases"] = stats.get("subsecond_offset_cases", 0) + 1
-                stats["subsecond_offset_deviating"] = stats.get("subsecond_offset_deviating", 0) + int(t_out != want)
-            elif t_out != want:
-                f = None
-                if fold_class and t_out == ((t_in + inp["off"] - inp["off0"]) // unit) * unit:
-                    f = FINDING_FOLD          # written with the offset of the first occurrence of the wall time
-                elif copy_class and t_out == t_in:
-                    f = FINDING_COPY          # written untruncated: the copy has forgotten its precision
-                viol("written instant is not the input instant truncated to the precision (written %s us, expected %s us)"
-                     % (t_out, want), f)
-            if not digits_ok(p, c, frac, t_out % 1000000):
-                viol("wrong number of fractional digits for precision %s/%s" % (p, c), FINDING_COPY if copy_class else None)
-            if not subsec and not ((fold_class or copy_class) and t_out != want):      # already reported above
-                groups.setdefault((p, c), []).append((t_in, t_out, case, text))
-        if again != text:
-            viol("write-read-write is not a fixed point (second write gives %s)" % again,
-                 FINDING_YEAR if year_class else FINDING_COPY if (copy_class and strict) else None)
+          if not strict:
+              viol("not of the form YYYY-MM-DDTHH:MM:SS[.fraction]Z with a four-digit year", FINDING_YEAR if year_class else None)
+          if t_out is None:
+              continue
+          if t_in is not None:
+              unit = UNIT.get((p, c), 1)
+              want = (t_in // unit) * unit
+              if subsec:
+                  # out of the property's realistic domain (see MANIFEST note): only counted
+                  stats["subsecond_offset_cases"] = stats.get("subsecond_offset_cases", 0) + 1
+                  stats["subsecond_offset_deviating"] = stats.get("subsecond_offset_deviating", 0) + int(t_out != want)
+              elif t_out != want:
+                  f = None
+                  if fold_class and t_out == ((t_in + inp["off"] - inp["off0"]) // unit) * unit:
+                      f = FINDING_FOLD          # written with the offset of the first occurrence of the wall time
+                  elif copy_class and t_out == t_in:
+                      f = FINDING_COPY          # written untruncated: the copy has forgotten its precision
+                  viol("written instant is not the input instant truncated to the precision (written %s us, expected %s us)"
+                       % (t_out, want), f)
+              if not digits_ok(p, c, frac, t_out % 1000000):
+                  viol("wrong number of fractional digits for precision %s/%s" % (p, c), FINDING_COPY if copy_class else None)
+              if not subsec and not ((fold_class or copy_class) and t_out != want):      # already reported above
+                  groups.setdefault((p, c), []).append((t_in, t_out, case, text))
+          if again != text:
+              viol("write-read-write is not a fixed point (second write gives %s)" % again,
+                   FINDING_YEAR if year_class else FINDING_COPY if (copy_class and strict) else None)
+      except Exception as e:  # noqa: BLE001 -- the oracle must never stop the check: report the case instead
+        out.append(Violation("the oracle could not judge this case (%s: %s): %s" % (type(e).__name__, e, str(res)[:200]),
+                             {"cases": [case], "check": "oracle error"}, None))
     for (p, c), g in groups.items():      # later instants are never written as earlier ones
         g.sort(key=lambda x: x[0])
         best = None
@@ -872,6 +879,7 @@ def check(run):
         v.batch = (cases, procs_main)
     run.violations += vg + vc
     run.violations += local_zone_runs(run, cases, impl, stats)
+    run.violations += repeat_runs(run, cases, impl, stats)
     run.coverage["oracle_cases"] = len(cases) + len(grid)
     if run.broken and not run.violations:
         # something no longer checks but no generated input fails the property: search at higher volume
@@ -943,6 +951,34 @@ def local_zone_runs(run, cases, impl, stats):
     return out
 
 
+def repeat_runs(run, cases, impl, stats):
+    """History / order: a sample of the cases asked again, twice in one interpreter -- in the original order and
+    then reversed (so each question comes after different unrelated and failed calls): same answers every time."""
+    idx = list(range(0, len(cases), max(1, len(cases) // 1600)))
+    out = []
+    nd = 0
+    for b in range(0, len(idx), 400):
+        part = idx[b:b + 400]
+        seq = part + part[::-1]
+        batch = [cases[i] for i in seq]
+        res = impl_run(batch, procs=1)
+        for pos, (i, c, r) in enumerate(zip(seq, batch, res)):
+            if r != impl[i]:
+                nd += 1
+                if nd <= 3:
+                    # replay: everything this interpreter had handled up to here, then the same question in a fresh
+                    # state is the first element of a second group (replay() compares equal questions)
+                    out.append(Violation("the answer depends on what the interpreter handled before (asked again: %s, first: %s): %s"
+                                         % (r, impl[i], describe(c, split_result(r)[0])),
+                                         {"cases": batch[:pos + 1], "check": "history", "expected_last": impl[i]}, None))
+        for v in oracle(batch, res, stats):
+            v.batch = (batch, 1)
+            out.append(v)
+    stats["asked_again"] = 2 * len(idx)
+    stats["asked_again_differences"] = nd
+    return out
+
+
 def reproducible(v):
     """A replay is run in a fresh interpreter.  If the failure does not show there on its own (it depended on what
     the same worker process had handled before, e.g. a tzinfo object seen earlier), the replay gets the cases that
@@ -959,6 +995,8 @@ def reproducible(v):
             return False
         if kind == "process time zone":
             return any(r != v.replay.get("utc_answer") for r in res[-1:])
+        if kind == "history":
+            return res[-1] != v.replay.get("expected_last")
         return any(str(x.replay.get("check")).split(" (")[0].split(": ")[0] == kind for x in oracle(cs, res))
 
     cs = v.replay["cases"]
@@ -1000,6 +1038,12 @@ def replay(payload):
     for c, i in zip(cases, impl):
         print("replay%s %s %s/%s %s -> %s" % (" TZ=" + r["tz"] if r.get("tz") else "", c["k"], c["p"], c["c"], c["in"], i))
     v = oracle(cases, impl)
+    if r.get("check") == "history":
+        alone = impl_run(cases[-1:], procs=1)
+        if alone[0] != impl[-1]:
+            print("  the last question gets %s after the others and %s in a fresh interpreter" % (impl[-1], alone[0]))
+            print("VIOLATION property=C15 replay=(given)")
+            return 1
     if r.get("tz") and r.get("check") == "process time zone":
         utc = impl_run(cases, procs=1, tz="UTC")
         if utc != impl:
